@@ -13,7 +13,7 @@ from __future__ import annotations
 import itertools
 
 from .. import gen, sweep, tabx
-from ..pool import pmap
+from ..pool import pmap, trim_lex_cache
 from ..refsem.tables import LOGICS
 from ..runner import Report
 from .c01 import STEP_CAP, plan
@@ -112,6 +112,7 @@ def _direct_task(task):
             idx += 1
             if idx % nparts != part:
                 continue
+            trim_lex_cache()
             first = None
             for perm in sorted(set(itertools.permutations(combo))):
                 seq = [ops[i] for i in perm]
